@@ -61,6 +61,10 @@ class Strategy(object):
         if kind in ("pct", "park"):
             order = list(range(nthreads))
             self.rng.shuffle(order)
+            if cfg.get("order"):
+                # explicit priority order, lowest first (last runs first)
+                order = [t for t in cfg["order"] if t < nthreads] + \
+                    [t for t in order if t not in cfg["order"]]
             # higher number = higher priority; base priorities above the
             # demotion levels
             self.prio = {t: 100 + i for i, t in enumerate(order)}
